@@ -76,6 +76,14 @@ def make_cases(ctx, n):
             t0["c"][base] = {"k": "d", "mode": 0o755, "mtime": 10**18, "c": {
                 "src": {"k": "d", "mode": 0o755, "mtime": 10**18, "c": {"main": f(b"m", 1), "util": f(b"u", 2)}}, "top": f(b"t", 3)}}
             t0["c"][sib] = {"k": "d", "mode": 0o755, "mtime": 10**18, "c": {"notes": f(b"n", 4)}}
+        if t % 4 == 1:
+            # owners known only by half: a uid with a passwd name beside a gid without a group name, the reverse, neither
+            for nm, (u_, g_) in (("nameless-group", (1, 54321)), ("nameless-user", (54321, 1)), ("nameless-both", (54321, 54322))):
+                t0["c"][nm] = {"k": ctx.rng.choice(["f", "f", "d"]), "mode": 0o640, "mtime": 10**18 + 7, "uid": u_, "gid": g_}
+                if t0["c"][nm]["k"] == "f":
+                    t0["c"][nm]["data"] = "6f"
+                else:
+                    t0["c"][nm]["c"] = {}
         t1, muts = gen.mutate_tree(ctx.rng, t0)
         if t % 3 == 0 and base in t1["c"] and t1["c"][base]["k"] == "d" and "src" in t1["c"][base]["c"] and t1["c"][base]["c"]["src"]["k"] == "d":
             srcd = t1["c"][base]["c"]["src"]["c"]
